@@ -41,7 +41,21 @@ FALSY = {
     'timeout': [0, None, False],
     'session': [{}, None],
 }
-REG_NAMESPACES = ['/chat', None, '/', '/a/b', '/x']
+REG_NAMESPACES = ['/chat', None, '/', '/a/b', '/x', '*']
+
+_RESULT_CYCLE = [0]
+
+
+def next_result():
+    """Value the recording server/client returns: mostly an opaque object, every other call a
+    falsy-but-meaningful value (empty session dict, empty room list, 0, '', None) -- 'the result is
+    passed back unchanged' must hold for those too (identity is compared)."""
+    _RESULT_CYCLE[0] += 1
+    i = _RESULT_CYCLE[0]
+    if i % 2:
+        return Result()
+    return [dict(), list(), 0, '', None, tuple()][(i // 2) % 6]
+
 
 REASONS = [(32, 'raises-or-no-call'), (256, 'wrong-method'), (16, 'arg'), (8, 'namespace'), (4, 'result'),
            (64, 'unexposed-param-altered'), (128, 'bound-twice')]
@@ -127,14 +141,14 @@ def make_recording_class(real_cls, methods):
             if is_async:
                 async def outer(self, *args, **kwargs):
                     entry = {'m': m, 'args': args, 'kwargs': list(kwargs.items()), 'bound': None,
-                             'result': Result()}
+                             'result': next_result()}
                     self._c17_log.append(entry)
                     entry['bound'] = await inner(self, *args, **kwargs)
                     return entry['result']
             else:
                 def outer(self, *args, **kwargs):
                     entry = {'m': m, 'args': args, 'kwargs': list(kwargs.items()), 'bound': None,
-                             'result': Result()}
+                             'result': next_result()}
                     self._c17_log.append(entry)
                     entry['bound'] = inner(self, *args, **kwargs)
                     return entry['result']
